@@ -132,7 +132,7 @@ def run(ctx):
     sessions.model_check(ctx)
     for i_ in range(2):
         sessions.run_sessions(ctx, random.Random(ctx.seed * 2 + 77 + i_), 120 if ctx.quick else 2500, ('cs', 'cs', 'tr'),
-                              lambda r, world=None: _c13.gen_dump(r, world=world, orphans=0.1, samples=0.4),
+                              lambda r, world=None: _c13.gen_dump(r, world=world, orphans=0.1, samples=0.4, residue_case=r.random() < 0.6),
                               sessions.cfg_light, 'ses%d_' % i_)
     ctx.expect_ok(run_tlc('Callstacks_MC', MC_CFG % ('Spec', 5 if ctx.quick else 7, '0, 1, 2, 4', INVS), ctx.workdir,
                           name='cs_mc', timeout=3600))
